@@ -35,6 +35,7 @@ func (c03) Info(tier string) fw.Info {
 	return fw.Info{
 		Level: "exploration",
 		Rule: "base programs: hand-written marked programs covering every construct (with mainShallExist both ways), seeded type-directed random programs, shipped corpus programs accepted today; " +
+			"control-flow programs (flow.go): statement bodies placed at every position that requires a value (function, closure, block, if/else, match arm, try/catch), judged by a reference model of which blocks can complete; " +
 			"each base must get 0 error diagnostics and the recorded type of every marked let initialiser must equal the generator's/author's type; " +
 			"every single-fault mutant (one mutator per rule of DESIGN Appendix H x every marked position of the base) must get >= 1 error diagnostic or syntax error. " +
 			"non-trivial = the base program was judged as expected (accepted, or rejected for the required-main cases) and, unless the case is accept-only, at least one mutant was analysed; " +
@@ -44,6 +45,7 @@ func (c03) Info(tier string) fw.Info {
 			"int and float are treated as distinct types without implicit conversion; the mutators never rely on that distinction",
 			"imported user modules contain a main function (the analyzer analyses imported modules with mainShallExist=true)",
 			"position and wording of diagnostics are not checked here (C08)",
+			"divergence is read path-insensitively (every condition may go either way; a loop is left only by its own break); bodies on which a cautious analyzer may differ (code after a diverging statement, a throw inside a loop without break) are not generated",
 		},
 		Exhaustive:   false,
 		CaseTimeoutS: 60,
@@ -147,6 +149,65 @@ func firstError(out drive.AnalyzeOut) (class, text string) {
 	return msgClass(d.Message), fmt.Sprintf("%s:%d:%d %s", d.Span.Filename, d.Span.Start.Line, d.Span.Start.Column, d.Message)
 }
 
+// enclosingItem returns the top-level item (function, global, …) of src that holds the 1-based
+// line, on one line with runs of white space collapsed.
+func enclosingItem(src string, line int) string {
+	lines := strings.Split(src, "\n")
+	if line < 1 || line > len(lines) {
+		return ""
+	}
+	top := func(l string) bool {
+		return l != "" && l[0] != ' ' && l[0] != '\t' && l[0] != '}' && !strings.HasPrefix(l, "//")
+	}
+	a := line - 1
+	for a > 0 && !top(lines[a]) {
+		a--
+	}
+	b := a
+	for b+1 < len(lines) && !top(lines[b+1]) {
+		b++
+	}
+	return util.Clip(strings.Join(strings.Fields(strings.Join(lines[a:b+1], " ")), " "), 500)
+}
+
+// mutatedItem renders the top-level item of the mutant that differs from the base program.
+func mutatedItem(base, mutant string) string {
+	bl, ml := strings.Split(base, "\n"), strings.Split(mutant, "\n")
+	for i := range ml {
+		if i >= len(bl) || bl[i] != ml[i] {
+			if it := enclosingItem(mutant, i+1); it != "" {
+				return "; mutated item: " + it
+			}
+			break
+		}
+	}
+	return ""
+}
+
+// rejectedItem renders the top-level item the first error diagnostic lies in.
+func rejectedItem(src drive.Sources, out drive.AnalyzeOut) string {
+	if len(out.Syntax) > 0 {
+		return ""
+	}
+	best := -1
+	for i, d := range out.Diags {
+		if d.Level != diagnostic.DiagnosticLevelError {
+			continue
+		}
+		if best < 0 || d.Span.Start.Line < out.Diags[best].Span.Start.Line {
+			best = i
+		}
+	}
+	if best < 0 {
+		return ""
+	}
+	d := out.Diags[best]
+	if it := enclosingItem(src[d.Span.Filename], int(d.Span.Start.Line)); it != "" {
+		return "; in: " + it
+	}
+	return ""
+}
+
 func hasTag(tags []string, t string) bool {
 	for _, x := range tags {
 		if x == t {
@@ -241,6 +302,10 @@ func (c03) Run(c fw.Case) (res fw.Result) {
 	}
 	if out.Errors != 0 {
 		class, text := firstError(out)
+		if p.Group == "flow" {
+			// many small functions per program: show the one the first error points into
+			text += rejectedItem(base, out)
+		}
 		subs = append(subs, fw.SubViolation{
 			Sig:    "rejected-base:" + p.Construct + ":" + class,
 			Why:    fmt.Sprintf("well-typed program %s (%s, mainShallExist=%v) rejected with %d error(s), first: %s", p.Name, p.Construct, p.Main, out.Errors, text),
@@ -328,7 +393,7 @@ func (c03) Run(c fw.Case) (res fw.Result) {
 		if mo.Errors == 0 {
 			subs = append(subs, fw.SubViolation{
 				Sig:    "accepted-mutant:" + m.Rule + ":" + m.Ctx,
-				Why:    fmt.Sprintf("ill-typed mutant of %s got no error diagnostic: rule %s, context %s, %s", p.Name, m.Rule, m.Ctx, m.Desc),
+				Why:    fmt.Sprintf("ill-typed mutant of %s got no error diagnostic: rule %s, context %s, %s%s", p.Name, m.Rule, m.Ctx, m.Desc, mutatedItem(base[m.Module], m.Source)),
 				Detail: map[string]any{"module": m.Module, "mutant": m.Source, "rule": m.Rule, "ctx": m.Ctx, "desc": m.Desc, "tags": m.Tags},
 			})
 		}
